@@ -19,7 +19,7 @@ from .mp import MPBytes, MPTrunc
 def length_of(v):
     if isinstance(v, (bytes, bytearray, str)):
         return len(v)
-    if type(v).__name__ in ("JSText", "AvroHeader", "AvroBlock", "CsvRow", "MagicSeg"):
+    if type(v).__name__ in ("JSText", "JSFragment", "AvroHeader", "AvroBlock", "CsvRow", "MagicSeg"):
         return v.length
     if isinstance(v, BCat) or type(v).__name__ == "JSLines":
         total = 0
@@ -154,6 +154,11 @@ class AbsFile(io.IOBase):
                 elif isinstance(leaf, SStr):
                     no_sur = z3.Star(z3.Union(z3.Range(chr(0), chr(0xD7FF)), z3.Range(chr(0xE000), chr(0x2FFFF))))
                     it.require(z3.InRe(leaf.t, no_sur), UnicodeEncodeError("utf-8", "<symbolic>", 0, 1, "surrogates not allowed"))
+        if isinstance(b, str) and b and "b" not in self.mode and self.segs and type(self.segs[-1][0]).__name__ == "JSText":
+            # text written right behind a JSON document (its line terminator, written by a second call): the file holds the document followed by that text
+            merged = self.segs[-1][0] + b
+            self.segs[-1] = (merged, length_of(merged))
+            return len(b)
         n = length_of(b)
         if isinstance(b, BCat) or type(b).__name__ == "JSLines":
             for part in b.parts:  # one write call, the parts lie one after the other in the file
